@@ -133,3 +133,38 @@ class bw_roundtrip:
     requires = ["m.connection_list.shape[1] >= 1", "m.connection_list.shape[2] >= 1"]
     ensures = {"C10.bw-inverse": "same_grid(result, m.connection_list)"}
     props = ["C10"]
+
+
+# ----------------------------------------------------------------------------- reading images back: which kind of maze is drawn
+IMG3 = T.GridT("int", [None, None, 3])
+_HAS = "exists(lambda p, q: rgb_is(pixel_grid, p, q, color), (0, pixel_grid.shape[0]), (0, pixel_grid.shape[1]))"
+
+
+@contract(F, "color_in_pixel_grid")
+class color_in_pixel_grid:
+    params = dict(pixel_grid=IMG3, color=T.TupleT(T.Int, T.Int, T.Int))
+    ensures = {"C10.colour-present": f"result == {_HAS}"}
+    loops = {
+        0: Loop(head="for row in pixel_grid", havoc=dict(),
+                inv={"rows-without": "forall(lambda p, q: not rgb_is(pixel_grid, p, q, color), (0, _k), (0, pixel_grid.shape[1]))"}),
+        1: Loop(head="for pixel in row", havoc=dict(),
+                inv={"row-part-without": "forall(lambda q: not rgb_is(row, q, color), (0, _k))"}),
+    }
+    result = T.Bool
+    pure_result = True
+    props = ["C10"]
+
+
+def _has(c):
+    return f"exists(lambda p, q: rgb_is(data, p, q, PixelColors.{c}), (0, data.shape[0]), (0, data.shape[1]))"
+
+
+@contract(F, "detect_pixels_type")
+class detect_pixels_type:
+    params = dict(data=IMG3)
+    ensures = {
+        # the kind of maze drawn: endpoints present -> targeted, endpoints and path pixels -> solved, neither -> plain
+        "C10.detected-kind": f"result.__name__ == ('SolvedMaze' if (({_has('START')} or {_has('END')}) and {_has('PATH')}) else"
+        f" ('TargetedLatticeMaze' if ({_has('START')} or {_has('END')}) else 'LatticeMaze'))",
+    }
+    props = ["C10"]
